@@ -153,11 +153,15 @@ class Recorder:
         elif kind == "combiner":
             pd = Draws(self, "draw", cfg["pd"])
             n = object.__new__(Combiner); reg(n)
+            # a `late` combiner gets its recipe the way the library's examples assign node parameters: constructed with a placeholder
+            # (one of each), the attribute target_quantity_of_each_item set afterwards, before the run
+            recipe = list(cfg.get("target", [1]))
             Combiner.__init__(n, self.env, f"N{i}", node_setup_time=t2f(cfg.get("setup", 0)),
-                              target_quantity_of_each_item=list(cfg.get("target", [1])), processing_delay=pd,
+                              target_quantity_of_each_item=([1] * len(recipe) if cfg.get("late") else recipe), processing_delay=pd,
                               blocking=cfg.get("blocking", True),
                               **(lk := self._late(cfg, dict(out_edge_selection=self._policy(cfg.get("out", "FIRST_AVAILABLE")))))[0])
             for k, v in lk[1].items(): setattr(n, k, v)
+            if cfg.get("late"): n.target_quantity_of_each_item = recipe
         elif kind == "splitter":
             pd = Draws(self, "draw", cfg["pd"])
             n = object.__new__(Splitter); reg(n)
